@@ -14,6 +14,7 @@ import json
 import os
 
 from core import coqrun
+from fakes import c06_elements
 from fakes import c06_infojudge
 from fakes import c06_mem
 
@@ -66,13 +67,21 @@ PROVED = ('For every history of reads, queued / flushing writes, arbitrary packe
           'every device without 1-wire memory (any number of memories, any start state without a left-over 1-wire '
           'update) the in-order enumeration ends with exactly one done and the device\'s list; devices with 1-wire '
           'memories (good / bad header CRC, bad element CRC, elements over several read chunks) are enumerated exactly '
-          'in the model in order and under a hostile schedule (computed examples).')
+          'in the model in order and under a hostile schedule (computed examples). Element layer (C06/Wrapper.v): the '
+          'one-slot completion wrapper of the memory element classes answers every taken request by exactly one callback '
+          'whatever the data and frees the slot (all histories); a completion skipped on a data-dependent branch is '
+          'refuted in general; MemoryTester.new_data (model of the code with fixes/F06j.patch, tied on every run) calls the '
+          'completion exactly once for every data, the empty one too, with the verdict on all bytes.')
 NOT_PROVED = ('Exactness when a reply that outlived its request (a late duplicate) is delivered to a later request for '
               'the same memory and address: refuted (C06_read_exact_full_refuted / C06_write_exact_full_refuted, '
               'finding F06b, reproduced on the code by the oracle; the protocol carries no transaction number). '
               'Requests outside wf_event, user callbacks that raise, requests issued from the notifications of a disconnect, progress_cb (a zero-length write with '
               'a progress callback divides by zero while the lock is held), true thread interleavings of user calls with '
-              'the packet thread; of the enumeration: exactness for devices with 1-wire memories is proved only as '
+              'the packet thread; of the element layer: only MemoryTester.new_data, OWElement and the deck layer are '
+              'modelled in Coq, the other element classes (I2CElement, LocoMemory, LocoMemory2, LighthouseMemory, LED, '
+              'trajectory, multiranger, PAA3905) are covered by the oracle only; a request whose read the device refuses '
+              'leaves the callback slot of MemoryTester / I2CElement / OWElement / LocoMemory / LocoMemory2 taken (known '
+              'finding F06i); of the enumeration: exactness for devices with 1-wire memories is proved only as '
               'computed instances plus the tie (no general theorem); outside the property text and only observed '
               '(theorems C06_overlapping_refresh_observation_*, C06_refused_1wire_read_observation): refresh() called '
               'while another one is in progress or a late / duplicated details reply can leave a refresh unanswered or '
@@ -82,7 +91,9 @@ NOT_PROVED = ('Exactness when a reply that outlived its request (a late duplicat
               '(its parsing belongs to C14), bases <= 0, other users of the manager\'s memory id, write_failed_cb left at '
               'its default None (the code then calls None when the write fails), progress messages.')
 
-HEADER = 'From CF Require Import Common.Bytes C06.Model C06.DeckModel C06.InfoModel.\nOpen Scope Z_scope.\n'
+HEADER = ('From CF Require Import Common.Bytes C06.Model C06.DeckModel C06.InfoModel C06.Wrapper.\nOpen Scope Z_scope.\n'
+          'Definition tenc (r : bool * bool * list bool) : list Z := let \'(c, v, l) := r in '
+          '(if c then 1 else 0) :: (if v then 1 else 0) :: map (fun b : bool => if b then 1 else 0) l.\n')
 
 R_LENS = [0, 1, 2, 19, 20, 21, 39, 40, 41, 59, 60, 61, 79, 80, 81, 100]
 W_LENS = [0, 1, 2, 24, 25, 26, 49, 50, 51, 74, 75, 76, 99, 100, 101]
@@ -347,6 +358,8 @@ def _forged(rng, rig, ids):
 
 
 def nontrivial(case):
+    if case.get('kind') == 'tester':
+        return any(b != (case['start'] + j) & 0xFF for j, b in enumerate(case['data'])) or not case['data']
     if case.get('kind') == 'info':
         evs = case['events']
         return any(d[0] == 1 for d in case['dev']) or sum(1 for e in evs if e[0] == 'F') > 1 or any(e[0] == 'X' for e in evs)
@@ -420,7 +433,23 @@ def tie(ctx):
         cases.append(c06_infojudge.gen_info_case(ctx.rng, 'clean' if k % 3 == 0 else 'faulty'))
     sysinfo = c06_infojudge.systematic_info_cases()
     cases += sysinfo if ctx.thorough else sysinfo[::3]
+    # MemoryTester.new_data against tester_new_data TFixed (the per-byte loop and its completion)
+    n_tester = 0
+    for k in range(ctx.scale(150, 1500)):
+        start = ctx.rng.choice([0, 7, 250, 65530])
+        n = ctx.rng.choice([0, 1, 2, 5, 20, 33])
+        data = [(start + j) & 0xFF for j in range(n)]
+        for _ in range(ctx.rng.choice([0, 0, 1, 2])):
+            if n:
+                data[ctx.rng.choice([0, n // 2, n - 1, ctx.rng.randrange(n)])] ^= ctx.rng.choice([1, 0x80, 0xFF])
+        cbset = ctx.rng.random() < 0.85
+        cases.append({'kind': 'tester', 'plan': [], 'events': [], 'start': start, 'data': data, 'cb': cbset})
+        n_tester += 1
     for c in cases:
+        if c.get('kind') == 'tester':
+            terms.append('tenc (tester_new_data TFixed %d %s %s true)' % (c['start'], coqrun.zlist(c['data']), coqrun.coq_bool(c['cb'])))
+            exp.append(_tester_impl(c))
+            continue
         if c.get('kind') == 'info':
             ints, rig = c06_infojudge.run_info_impl(c)
             terms.append(c06_infojudge.info_case_term(c))
@@ -477,6 +506,7 @@ def tie(ctx):
         # stale deliveries: marker 9 followed by freshness flag 0 on a 'D' event
     dist['stale_deliveries_in_first_300'] = sum(_count_stale(c) for c in cases[:300])
     dist['enumerated_schedules'] = n_enum
+    dist['memory_tester_listener_cases'] = n_tester
     dist['enumeration_histories'] = sum(1 for c in cases if c.get('kind') == 'info')
     dist['refresh_calls'] = sum(1 for c in cases for e in c['events'] if e[0] == 'F')
     dist['one_wire_memories'] = sum(1 for c in cases if c.get('kind') == 'info' for d in c['dev'] if d[0] == 1)
@@ -516,6 +546,18 @@ def compare_cases(terms, exp, tag='c06'):
     return out
 
 
+def _tester_impl(c):
+    import cflib.crazyflie.mem as memmod
+    logging_off = __import__('logging').getLogger('cflib.crazyflie.mem.memory_tester')
+    logging_off.setLevel(100)
+    t = memmod.MemoryTester(id=3, type=0x15, size=0x1000, mem_handler=None)
+    calls = []
+    if c['cb']:
+        t._update_finished_cb = lambda el: calls.append(1 if el.readValidationSucess else 0)
+    t.new_data(t, c['start'], bytearray(c['data']))
+    return [1 if t._update_finished_cb else 0, 1 if t.readValidationSucess else 0] + calls
+
+
 def _count_stale(case):
     rig = c06_mem.Rig(case['plan'])
     n = 0
@@ -528,7 +570,7 @@ def _count_stale(case):
 
 def runner_sha(case):
     import hashlib
-    return hashlib.sha1(json.dumps([case['plan'], case['events']], sort_keys=True).encode()).hexdigest()
+    return hashlib.sha1(json.dumps([case['plan'], case['events'], case.get('start'), case.get('data'), case.get('dev')], sort_keys=True).encode()).hexdigest()
 
 
 # ------------------------------------------------------------------ oracle (property text on observables)
@@ -1128,6 +1170,12 @@ def oracle(ctx, deep=False):
     hn, hf = high_level_cases()
     n += hn
     fails += hf
+    # the element layer: every element API that wraps Memory.read / write, with corrupted data, refusals, link drops
+    for sc in c06_elements.all_scenarios(deep or ctx.thorough):
+        n += 1
+        f = c06_elements.judge_element(sc)
+        if f:
+            fails.append(f)
     return {'evaluations': n, 'failures': fails, 'distinct_nontrivial': 0,
             'rule': 'property text judged on the real code with independent bookkeeping: packet limits, chunks from the '
                     'oldest queued write only, each request notified at most once / exactly once after drain or disconnect, '
@@ -1172,4 +1220,6 @@ def replay(payload, ctx):
         return hf[0] if hf else None
     if c.get('kind') == 'info':
         return c06_infojudge.judge_info(c)
+    if c.get('kind') == 'elem':
+        return c06_elements.judge_element(c)
     return judge(c, finish=True)
